@@ -244,6 +244,8 @@ def finding_matches(kf, d):
             return False
     if "tag" in m and m["tag"] not in (dv.get("tags") or []):
         return False
+    if "tag_re" in m and not any(re.fullmatch(m["tag_re"], t) for t in (dv.get("tags") or [])):
+        return False
     if "detail_re" in m and not re.search(m["detail_re"], dv.get("detail", "")):
         return False
     if "path_re" in m and not re.search(m["path_re"], dv.get("path", "")):
@@ -315,7 +317,10 @@ class Report:
         self.parts.append({"replay": name, "executions": stats.get("execs", 0), "library_calls": stats.get("calls", 0),
                            "comparisons": stats.get("compared", 0), "refused": stats.get("refused", 0),
                            "open": stats.get("open", 0), "by_op": stats.get("by_op", {}),
-                           "refused_ops": stats.get("refused_ops", {}), "divergences": len(divs)})
+                           "refused_ops": stats.get("refused_ops", {}), "divergences": len(divs),
+                           # circumstance tags: executions in which each occurred / compared to the end and agreed / diverged
+                           "circumstances": {t: [n, stats.get("tag_pass", {}).get(t, 0), stats.get("tag_div", {}).get(t, 0)]
+                                             for t, n in sorted(stats.get("tag_n", {}).items())}})
 
     def finish(self):
         viol, known, kfs = classify(self.divs)
@@ -333,6 +338,10 @@ class Report:
         with open(os.path.join(outdir, "all_divergences.ndjson"), "w") as f:
             for d in viol[:20000]:
                 f.write(json.dumps(d["div"]) + "\n")
+        with open(os.path.join(outdir, "known_divergences.ndjson"), "w") as f:
+            for kid, ds in sorted(known.items()):
+                for d in ds[:5000]:
+                    f.write(json.dumps({"kf": kid, "div": d["div"]}) + "\n")
         seen = set()
         nviol = 0
         for d in viol:
